@@ -120,6 +120,18 @@ def step (s : S) (line : String) : S × String :=
     if !ready then (s, "bad-op") else
     if s.mode == 0 then (s, weightsLine s (pbText (α := Float) rows))
     else (s, weightsLine s (pbDigital (α := Float) s.abc (ruleOf half32) (minspanOf half32 s.alen) s.rf rows))
+  | "multi" :: _ =>
+    match arg? ws "seq" with
+    | some q =>
+      if !ready || q.isEmpty || q.toList.any (fun c => c != 'p' && c != 'g' && c != 'b') then (s, "bad-op") else
+      -- every weighting routine overwrites all of msa->wgt[]: only the last call matters
+      match q.toList.getLast? with
+      | some 'p' =>
+        if s.mode == 0 then (s, weightsLine s (pbText (α := Float) rows))
+        else (s, weightsLine s (pbDigital (α := Float) s.abc (ruleOf half32) (minspanOf half32 s.alen) s.rf rows))
+      | some 'g' => (s, weightsLine s (gsc (α := Float) s.m rows))
+      | _ => (s, weightsLine s (blosum s.m (argBits ws "maxid") rows))
+    | none => (s, "bad-op")
   | "pbadv" :: _ =>
     if !ready || s.mode == 0 then (s, "bad-op") else
     let irf := (argNat? ws "irf").getD 0
